@@ -15,7 +15,7 @@ theorem walkBack_spec (h : LInv t z qt) : ∀ ka fuel, ka < N → ka < fuel →
     obtain ⟨f, rfl⟩ : ∃ f, fuel = f + 1 := ⟨fuel - 1, by omega⟩
     refine ⟨0, Nat.le_refl _, ?_, h.z0, fun k h1 h2 => by omega⟩
     have := h.z0
-    simp only [St.at] at this
+    simp only [St.at, pos_zero] at this
     simp [walkBack, this]
   | succ ka ih =>
     intro fuel hka hf
@@ -77,8 +77,7 @@ theorem nextOcc_spec {ka : Nat} (hka : ka < N) {oi : Bool}
           · rw [← e, ho] at h; cases h
           · rw [hoi] at h; cases h
         · refine ⟨kb + 1, by omega, by omega, ?_, fun k h1 h2 => by omega, Or.inr ⟨e, rfl⟩⟩
-          simp only [St.at] at ho
-          simp [nextOcc, incr_pos, ho, e]
+          simp [nextOcc, incr_pos, e]
       · obtain ⟨kb', h1, h2, h3, h4, h5⟩ := ih (kb + 1) (by omega) (by omega)
         refine ⟨kb', by omega, h2, ?_, ?_, h5⟩
         · have ho' := ho
